@@ -51,6 +51,10 @@ type callTokenData struct {
 	CallID    string // 32-char lowercase hex; binds this call to its cursors
 	SchemaIPC []byte // serialized output schema for dynamic methods; nil for static
 	StreamID  string // stable across init/continuations of one stream call
+	// InputSchemaIPC is the serialized input schema a dynamic exchange method
+	// declared through StreamResult.InputSchema; nil for every other method
+	// (a static method's input schema is known from registration).
+	InputSchemaIPC []byte
 }
 
 // cursorTokenData is the advancing half: re-minted every turn under
@@ -72,6 +76,8 @@ type cursorTokenData struct {
 type resolvedCall struct {
 	SchemaIPC []byte
 	StreamID  string
+	// InputSchemaIPC: see callTokenData.InputSchemaIPC.
+	InputSchemaIPC []byte
 }
 
 // defaultCallStateCacheEntries bounds the per-process call cache.
@@ -461,6 +467,15 @@ func normalizeTokenKey(key []byte) []byte {
 // packCallToken seals the half of a stream's state that is fixed for the
 // life of the call. Minted once, by /init; never re-issued.
 func (h *HttpServer) packCallToken(callID string, outputSchema *arrow.Schema, auth *AuthContext, streamID string) ([]byte, error) {
+	return h.packCallTokenWithInput(callID, outputSchema, nil, auth, streamID)
+}
+
+// packCallTokenWithInput is packCallToken for a dynamic exchange method that
+// declared its input schema at init (StreamResult.InputSchema). The schema is
+// fixed for the life of the call and not known from registration, so it rides
+// the call token; continuations cast their input against it exactly as the
+// pipe transports do.
+func (h *HttpServer) packCallTokenWithInput(callID string, outputSchema, inputSchema *arrow.Schema, auth *AuthContext, streamID string) ([]byte, error) {
 	data := callTokenData{
 		CreatedAt: time.Now().Unix(),
 		CallID:    callID,
@@ -469,13 +484,16 @@ func (h *HttpServer) packCallToken(callID string, outputSchema *arrow.Schema, au
 	if outputSchema != nil {
 		data.SchemaIPC = serializeSchema(outputSchema)
 	}
+	if inputSchema != nil {
+		data.InputSchemaIPC = serializeSchema(inputSchema)
+	}
 	token, err := h.sealToken(callTokenVersion, &data, callTokenAad(auth))
 	if err != nil {
 		return nil, err
 	}
 	// Warm the cache with the values we already hold, so this stream's first
 	// continuation does not have to open the token it was just handed.
-	h.callStates.putUntil(callID, auth, &resolvedCall{SchemaIPC: data.SchemaIPC, StreamID: streamID},
+	h.callStates.putUntil(callID, auth, &resolvedCall{SchemaIPC: data.SchemaIPC, StreamID: streamID, InputSchemaIPC: data.InputSchemaIPC},
 		time.Unix(data.CreatedAt, 0).Add(h.tokenTTL))
 	return token, nil
 }
@@ -559,7 +577,7 @@ func (h *HttpServer) resolveCall(cursor *cursorTokenData, callToken []byte, auth
 		return nil, &RpcError{Type: "RuntimeError", Message: "Malformed state token"}
 	}
 
-	got := &resolvedCall{SchemaIPC: data.SchemaIPC, StreamID: data.StreamID}
+	got := &resolvedCall{SchemaIPC: data.SchemaIPC, StreamID: data.StreamID, InputSchemaIPC: data.InputSchemaIPC}
 	// Expire the entry with the call token, not TTL from now: the cache only
 	// saves work and must not extend the token's lifetime.
 	h.callStates.putUntil(cursor.CallID, auth, got, time.Unix(data.CreatedAt, 0).Add(h.tokenTTL))
